@@ -4,20 +4,21 @@ PROP = {'drive': ['Otl'], 'modules': ['SfntV.Props.C08'],
  'required_theorems': ['C08_cov_roundtrip', 'C08_cov_len', 'C08_cov_indices', 'C08_cov_minimal', 'C08_cov_order_independent',
                        'C08_classdef_roundtrip', 'C08_classdef_len', 'C08_classdef_refusal',
                        'C08_st_roundtrip_gsub1_1', 'C08_st_len_gsub1_1', 'C08_st_roundtrip_gsub1_2',
-                       'C08_st_len_gsub1_2', 'C08_st_roundtrip_gsub2_1_3_1', 'C08_st_len_gsub2_1_3_1', 'C08_st_roundtrip_gsub4_1',
+                       'C08_st_len_gsub1_2', 'C08_st_roundtrip_gsub2_1_3_1', 'C08_st_len_gsub2_1_3_1', 'C08_st_roundtrip_gsub4_1', 'C08_st_roundtrip_gsub8_1',
                        'C08_lookuplist_layout', 'C08_valuerecord_roundtrip', 'C08_st_roundtrip_gpos1_1',
                        'C08_st_roundtrip_gpos1_2', 'C08_gpos1_2_normal_form', 'C08_st_roundtrip_gpos2_1',
+                       'C08_anchor_roundtrip', 'C08_st_roundtrip_gpos3_1',
                        'C08_featurelist_roundtrip', 'C08_gdef_roundtrip', 'C08_gtab_roundtrip',
                        'C08_gtab_nil_normal_form', 'C08_scriptlist_roundtrip', 'C08_scriptlist_encode_total',
                        'C08_gtab_scriptlist_roundtrip'],
  'areas': [('otl', 900, 12000)],
  'rule': 'distinct case lines; non-trivial = coverage/class tables with at least two glyphs/runs, every '
          'subtable, every lookup-list and every mutated-bytes case',
- 'partial': ['codecs proved: GSUB 1.1, 1.2, 2.1, 3.1, 4.1, GPOS value records, GPOS 1.1, 1.2, 2.1, feature list, '
+ 'partial': ['codecs proved: GSUB 1.1, 1.2, 2.1, 3.1, 4.1, 8.1, GPOS value records, GPOS 1.1, 1.2, 2.1, anchors, GPOS 3.1, feature list, '
              'script list, GSUB/GPOS header, GDEF',
              'modelled and tied by byte-exact encode / value-exact decode correspondence (incl. the 16-bit '
-             'boundary of every offset and mutated bytes) but without round-trip theorems yet: GSUB 8.1, '
-             'GPOS 2.2, 3.1, 4.1, 6.1 (with anchors and mark arrays), SeqContext1/2/3 and '
+             'boundary of every offset and mutated bytes) but without round-trip theorems yet: '
+             'GPOS 2.2, 4.1, 6.1 (with mark arrays), SeqContext1/2/3 and '
              'ChainedSeqContext1/2/3 (streams otl.gsub.*, otl.gpos.*). Not modelled: GPOS 5.1 (the library has '
              'no encoder for it: encode/encodeLen panic "not implemented")',
              'script list: ScriptListInfo.encode / readScriptList are modelled and proved on the OpenType side of '
@@ -63,7 +64,7 @@ PROP = {'drive': ['Otl'], 'modules': ['SfntV.Props.C08'],
 
 LEVEL = {'text': 'Proof (partial over subtable types): Lean models of coverage.Table/Set Encode/EncodeLen/Read, '
          'classdef.Table Append/AppendLen/Read, LookupList.encode with tryReorder and extension records '
-         '(subtables as opaque blobs), GSUB 1.1/1.2/2.1/3.1/4.1, GPOS value records and 1.1/1.2/2.1, the '
+         '(subtables as opaque blobs), GSUB 1.1/1.2/2.1/3.1/4.1/8.1, GPOS value records and 1.1/1.2/2.1/3.1 with anchors, the '
          'feature list, the script list, the GSUB/GPOS header and GDEF; theorems: decode(encode x) = x, declared size = emitted size, coverage '
          'indices 0..n-1 in glyph order, the smaller format is chosen, independence of map iteration order, '
          'and for every lookup list either the specification reader recovers every (type, flags, mark '
